@@ -14,6 +14,7 @@ oracle_c08 — line protocol (state: sparse threshold, one 64-bit word, two 1024
   load <r> <hex,…16>                    → ok
   seti32|unseti32|seti16|unseti16 <r> <i> → ok
   dump <r>                              → <hex,…16>
+  marshal-mutate <r>                    → <hex,…16>   (bitmap after the bytes returned by Marshal were overwritten: unchanged)
   len <r>                               → <len> <nlen>
   and | or | orrev                      → <hex,…16>   (a op b)
   rev <r>                               → <hex,…16>
@@ -92,6 +93,7 @@ def step (st : S) (line : String) : S × String :=
   let cfg := Nv.Gen.C08.cfg
   match words line with
   | ["new"] => (init, "ok")
+  | ["probe-api"] => (st, "ok")   -- monitor-only: the Go side calls every exported method once and checks shared state
   | ["magic", m] => match parseInt? m with
     | some m => if inI32 m then ({ st with magic := m }, s!"magic={m}") else (st, "bad-op")
     | none => (st, "bad-op")
@@ -133,6 +135,10 @@ def step (st : S) (line : String) : S × String :=
       else if op == "unseti16" && inI16 i then (setReg st r (unsetI16 b (BitVec.ofInt 16 i)), "ok")
       else (st, "bad-op")
     | _, _ => (st, "bad-op")
+  | ["marshal-mutate", r] => match reg st r with
+    -- the Go side overwrites the bytes `Marshal` returned; a detached result leaves the bitmap as it was
+    | some b => (st, showMap b)
+    | none => (st, "bad-op")
   | ["dump", r] => match reg st r with
     | some b => (st, showMap b)
     | none => (st, "bad-op")
